@@ -326,6 +326,11 @@ pub fn scenario(ch: &mut Chooser, thorough: bool) -> Exec {
         let s = model[si].clone();
         let mut dests: Vec<(String, SocketAddr)> = vec![];
         if s.lo {
+            // a socket bound to the loopback address cannot reach anything else: whatever its
+            // sends to other destinations return, nobody receives them, and nothing else is
+            // disturbed (the routable sender's probes that follow find every member in place)
+            dests.push(("multicast-from-loopback-bind".into(), SocketAddr::new(group(v6), P)));
+            dests.push(("unicast-from-loopback-bind".into(), SocketAddr::new(ips[(s.host + 1) % 3], P)));
             dests.push(("loopback".into(), SocketAddr::new(lo, P)));
         } else {
             dests.push(("unicast".into(), SocketAddr::new(ips[(s.host + 1) % 3], P)));
@@ -364,9 +369,10 @@ pub fn scenario(ch: &mut Chooser, thorough: bool) -> Exec {
             let src_ip = if dst.ip().is_loopback() { dst.ip() } else { ips[s.host] };
             let src = SocketAddr::new(src_ip, s.port);
             let is_bcast = matches!(dst.ip(), IpAddr::V4(a) if a.is_broadcast());
+            let unroutable = s.lo && !dst.ip().is_loopback();
             let send_ok_expected = !(is_bcast && !s.broadcast);
             let mut want: Vec<(usize, usize)> = vec![]; // (host, slot)
-            if send_ok_expected {
+            if send_ok_expected && !unroutable {
                 // destination (host, addr as seen by the receiver) pairs
                 let mut targets: Vec<(usize, SocketAddr)> = vec![];
                 if is_bcast {
@@ -419,7 +425,7 @@ pub fn scenario(ch: &mut Chooser, thorough: bool) -> Exec {
             let send_res = g.results.iter().find(|r| r.0 == s.host && r.1.starts_with("send")).map(|r| r.1.clone()).unwrap_or_default();
             let sent_ok = send_res.contains("Ok");
             obs.push(format!("probe {tag} {kind} host{} -> {dst}: {send_res}; drained {:?}", s.host, g.drained));
-            if sent_ok != send_ok_expected {
+            if sent_ok != send_ok_expected && !unroutable {
                 violation = Some(Violation::new(
                     "send-result",
                     format!("{kind} send from host{} slot{} (broadcast flag {}) to {dst} returned `{send_res}`, expected {}", s.host, s.slot, s.broadcast, if send_ok_expected { "Ok" } else { "PermissionDenied" }),
